@@ -9,6 +9,11 @@ _DISK_RULE = (
 )
 
 PROPS = {
+    "C02": dict(engine="disk", level="exploration", quick=4000, thorough=200000, rule=_DISK_RULE,
+                expected_probes=["vmdk.kind_hosted", "vmdk.kind_stream", "vmdk.kind_cowd", "vmdk.kind_sesparse", "vmdk.kind_flat",
+                                 "vmdk.gd_in_footer", "vmdk.gd_entries_gt_128", "vmdk.capacity_not_multiple_of_16_sectors",
+                                 "vmdk.adjacent_grains_merged", "vmdk.zero_grain"],
+                assumptions=["hosted sparse / stream-optimised / COWD layouts per VMware Virtual Disk Format 1.1 and QEMU vmdk.c (no fixture); SE-sparse stub anchored on tests/data/sesparse.vmdk"]),
     "C03": dict(engine="disk", level="exploration", quick=3000, thorough=150000, rule=_DISK_RULE,
                 expected_probes=["vhdx.sb_entries_interleaved", "vhdx.sector_4096", "vhdx.blocks_out_of_order",
                                  "vhdx.read_starts_midblock_crosses_block", "vhdx.state_2", "vhdx.state_6"],
@@ -38,6 +43,7 @@ _DISK_NOTE = ("trusted base: the writer stub's reading of the format, the refere
 _DISK_TECH = "deterministic simulation (stub writer peer + simulated storage + reference model oracle), seeded search, ddmin replay"
 
 MANIFEST_TEXT = {
+    "C02": dict(text=_DISK_TEXT, design_ref="DESIGN.md 4/C02", note=_DISK_NOTE, technique=_DISK_TECH),
     "C03": dict(text=_DISK_TEXT, design_ref="DESIGN.md 4/C03", note=_DISK_NOTE, technique=_DISK_TECH),
     "C04": dict(text=_DISK_TEXT, design_ref="DESIGN.md 4/C04", note=_DISK_NOTE, technique=_DISK_TECH),
     "C05": dict(text=_DISK_TEXT, design_ref="DESIGN.md 4/C05", note=_DISK_NOTE, technique=_DISK_TECH),
